@@ -30,7 +30,9 @@ ValidFrom(ws, i, kind) ==
 \* ws[1] is the innermost wrapper
 RECURSIVE SeqsUpTo(_, _)
 SeqsUpTo(S, n) == IF n = 0 THEN {<<>>} ELSE SeqsUpTo(S, n - 1) \cup {Append(q, x) : q \in SeqsUpTo(S, n - 1), x \in S}
+\* a multi-objective base (two objectives evaluated by two experimenters) is used unwrapped: the wrappers are single-objective
 Terms == {[base |-> b, ws |-> ws] : b \in Bases, ws \in {q \in SeqsUpTo(Wrappers, MaxDepth) : ValidFrom(q, 1, "continuous")}}
+         \cup {[base |-> "MultiObjective", ws |-> <<>>]}
 
 VARIABLE term
 Init == IF Mode = "enumerate" THEN term \in Terms ELSE term = "judge"
@@ -55,6 +57,7 @@ Verdict(o) ==
   ELSE IF o.law = "pointwise" /\ ~LawPointwise(o) THEN "law_" \o o.outer
   ELSE IF o.law = "order" /\ ~LawOrder(o) THEN "law_" \o o.outer
   ELSE IF ~o.extra_ok THEN "law_" \o o.outer \o "_extra"
+  ELSE IF ~o.batch_equals_single THEN "batch_evaluation_differs_from_single"
   ELSE "ok"
 JudgeAll == \A i \in DOMAIN Obs : PrintT(<<"EV", i, Verdict(Obs[i])>>)
 JInit == term = "judge" /\ JudgeAll
